@@ -211,6 +211,16 @@ def judge(ctx, g, cfgt, u, isb, rng):
     thS_ref = G.angle_between(np.broadcast_to(Dv, Sv.shape), Sv)
     nadir_err_km = R * 4e-16 / np.maximum(np.sin(thS_ref), 1e-12)
     tolb = 1e-9 + 1e-15 / np.maximum(np.abs(np.sin(zen)), 1e-8) + 4e-16 * (R + alt) / np.maximum(l, 1e-300) + (spot_err_km + nadir_err_km) / np.maximum(l, 1e-300)
+    # line of sight within 1e-6 rad of the local vertical at the spot (whole-disc annuli at u4 = 1): the
+    # azimuth origin around it is undefined (the frame comes from a cross product of parallel
+    # vectors), but the angle between trajectory and vertical is then theta_Tr to within that tilt
+    tilt = G.angle_between(np.broadcast_to(Dv, Sv.shape) - Sv, Sv)
+    degen = tilt < 1e-6
+    if degen.any():
+        bp = np.where(degen, 0.5 * np.pi - th, bp)
+        bm = np.where(degen, 0.5 * np.pi - th, bm)
+        tolb = tolb + np.where(degen, tilt + nadir_err_km / np.maximum(l, 1e-300) + 1e-9, 0.0)
+        ctx.obs["events_with_line_of_sight_at_nadir"] = ctx.obs.get("events_with_line_of_sight_at_nadir", 0) + int(degen.sum())
     ep, em = np.abs(beta_rep - bp), np.abs(beta_rep - bm)
     okp, okm = ep <= tolb, em <= tolb
     ctx.count("emergence", n)
@@ -377,6 +387,29 @@ def special_points(ctx):
                 break
 
 
+def whole_disc(ctx):
+    """Annuli that reach the sub-detector point (angle from the limb just below the horizon's nadir
+    angle): at u4 = 1 the line of sight is the nadir, every cosine of the construction is exactly 1
+    and rounds above it for some altitudes. Judged by all the monitors of an ordinary throw."""
+    from nuspacesim.simulation.geometry.region_geometry import RegionGeom
+
+    rng = ctx.subrng("c02-disc")
+    alts = list(range(1, 201)) if ctx.thorough() else list(range(1, 201, 5)) + [3, 8, 13, 23, 33, 38, 48, 53, 58, 68, 73, 78]
+    for alt in alts:
+        for frac in (1 - 1e-9, 1 - 1e-12):
+            cfgt = (float(alt), 0.3, 1.0, frac, math.radians(80.0), None)
+            try:
+                g = RegionGeom(make_cfg(*cfgt))
+                one = float(np.nextafter(1.0, 0.0))
+                u = np.array([[0.9, 0.9, 0.5, 0.2, 0.9, 0.05], [0.6, 0.6, 0.1, 0.9, 0.25, 0.5], [0.5, 0.5, 0.9, 0.3, 0.75, 0.0], [1.0, one, 1.0, one, 1 - 1e-12, 1.0]])
+                g.throw(u.copy())
+            except Exception as e:
+                ctx.exception("raises", f"whole-disc annulus (altitude {alt} km, angle from limb {frac!r} x horizon angle): construction / throw raised", e, {"cfg": cfgt})
+                continue
+            ctx.count("whole-disc", u.shape[1])
+            judge(ctx, g, cfgt, u, np.ones(u.shape[1], bool), rng)
+
+
 def side_by_side(ctx, si, payload):
     """Several geometry objects alive at once (built first, thrown afterwards, as a side-by-side
     comparison of detector altitudes or limb angles does): each gives, bit for bit, what an object
@@ -437,6 +470,7 @@ def run(ctx):
     payloads = [{"cfgs": cfgs[i::nsh], "nint": nint} for i in range(nsh)]
     core.run_shards(ctx, "nssmon.checks.c02", "shard", payloads, workers=nsh)
     special_points(ctx)
+    whole_disc(ctx)
     core.run_shards(ctx, "nssmon.checks.c02", "side_by_side", [{"cfgs": cfgs[i::4]} for i in range(4)], workers=4)
     for m in ("range", "inverse-cdf", "inverse-cdf-decimal", "monotone", "spot", "emergence", "mask", "along", "along-after-rethrow", "history", "side-by-side", "special-points", "call", "plots"):
         ctx.require(m)
